@@ -135,6 +135,28 @@ func honestIssuance(g *Rng, kp *KeyPair, nattr int, blind []int, keyshare, witne
 		setAt(t2, lp, I(new(big.Int).Add(leafInt(t2, lp), bi(1))))
 		emit(listOp([]*KeyPair{kp}, t2.([]any), context, nonce1, false, nil, "commitment-proof-altered", "reject"))
 	}
+	// responses shifted by multiples of the group order keep the verification equation: the range
+	// check alone decides (in-memory proofs for the negative ones)
+	if pu, ok := commitMsg.Proofs[0].(*gabi.ProofU); ok && !keyshare {
+		order := kp.sk.Order
+		lim := new(big.Int).Lsh(bi(1), pk.Params.LvPrimeCommit+1)
+		k := new(big.Int).Div(pu.VPrimeResponse, order)
+		k.Add(k, bi(1))
+		neg := new(big.Int).Sub(pu.VPrimeResponse, new(big.Int).Mul(k, order))
+		k2 := new(big.Int).Sub(lim, pu.VPrimeResponse)
+		k2.Div(k2, order).Add(k2, bi(1))
+		above := new(big.Int).Add(pu.VPrimeResponse, new(big.Int).Mul(k2, order))
+		for _, c := range []struct {
+			class string
+			v     *big.Int
+		}{{"vprime-response-negative", neg}, {"vprime-response-above-range", above}} {
+			t2 := cloneTree(any(trees)).([]any)
+			t2[0].(T)["v_prime_response"] = I(c.v)
+			o := listOp([]*KeyPair{kp}, t2, context, nonce1, false, nil, "commitment-proof-"+c.class, "reject")
+			o["direct"] = true
+			emit(o)
+		}
+	}
 	issuer := gabi.NewIssuer(kp.sk, pk, context)
 	var w *revocation.Witness
 	if witness {
